@@ -854,10 +854,12 @@ func runInvalidator(e *env) {
 			out.violate("C17.R1", "overlap", "accepted Invalidate calls c%d.%d and c%d.%d ran their callbacks at the same time", a.client, a.idx, b.client, b.idx)
 		}
 
-		// An accepted call stamps lastRun and immediately starts its first callback (no yield point in
-		// between), so the instants at which consecutive accepted calls start running callbacks are
-		// their accept instants: they must be >= SkipInterval apart.
-		if gap := b.cbs[0].enterT - a.cbs[0].enterT; gap < int64(si) {
+		// An accepted call stamps lastRun and then starts its first callback; in the current code no
+		// yield point lies in between, so the instants at which consecutive accepted calls start
+		// running callbacks are >= SkipInterval apart. A slack of 8 scheduler ticks keeps the rule
+		// indifferent to harmless refactorings that put a call-out between stamp and callbacks.
+		slack := 8 * e.sc.TickNs
+		if gap := b.cbs[0].enterT - a.cbs[0].enterT; gap < int64(si)-slack {
 			out.violate("C17.R2", "spacing", "accepted Invalidate calls c%d.%d and c%d.%d started running callbacks only %v apart, SkipInterval=%v", a.client, a.idx, b.client, b.idx, time.Duration(gap), si)
 		}
 
